@@ -6,7 +6,7 @@
 //   min_index()          the LOWEST index k with a[k] = min(a)
 //
 // Two kinds of harnesses:
-//  * `api_*`  : only the public API: `new(symbolic data)` followed by two `add_split` calls with
+//  * `api_*`  : only the public API: `new(symbolic data)` followed by one or two `add_split` calls with
 //               symbolic arguments; after every step the projection of the tree equals the array
 //               model and `min_index()` equals the model's answer.
 //  * `step_*` : one-step inductive contracts from an ARBITRARY tree satisfying the representation
@@ -151,8 +151,8 @@ mod verif_segtree {
 
     // ---------------------------------------------------------------- contracts
 
-    /// public API only: new + 2x add_split, min_index after every step
-    fn api_sequence<const N: usize>() {
+    /// public API only: new + STEPS x add_split, min_index after every step
+    fn api_sequence<const N: usize, const STEPS: usize>() {
         let size = N.next_power_of_two();
         let data: [i32; N] = kani::any();
         let mut model = [0i64; N];
@@ -171,7 +171,7 @@ mod verif_segtree {
         assert!(t.min_index() == argmin(&model));
 
         let mut step = 0;
-        while step < 2 {
+        while step < STEPS {
             let i: usize = kani::any();
             let l: i32 = kani::any();
             let r: i32 = kani::any();
@@ -239,14 +239,19 @@ mod verif_segtree {
         };
     }
 
-    harness!(api_n1, 4, api_sequence::<1>());
-    harness!(api_n2, 5, api_sequence::<2>());
-    harness!(api_n3, 6, api_sequence::<3>());
-    harness!(api_n4, 6, api_sequence::<4>());
-    harness!(api_n5, 10, api_sequence::<5>());
-    harness!(api_n6, 10, api_sequence::<6>());
-    harness!(api_n7, 10, api_sequence::<7>());
-    harness!(api_n8, 10, api_sequence::<8>());
+    harness!(api_n1, 4, api_sequence::<1, 2>());
+    harness!(api_n2, 5, api_sequence::<2, 2>());
+    harness!(api_n3, 6, api_sequence::<3, 2>());
+    harness!(api_n4, 6, api_sequence::<4, 2>());
+    // sizes 5..8: one add_split step in the quick tier, two steps in the thorough tier
+    harness!(api_n5_s1, 10, api_sequence::<5, 1>());
+    harness!(api_n6_s1, 10, api_sequence::<6, 1>());
+    harness!(api_n7_s1, 10, api_sequence::<7, 1>());
+    harness!(api_n8_s1, 10, api_sequence::<8, 1>());
+    harness!(api_n5_s2, 10, api_sequence::<5, 2>());
+    harness!(api_n6_s2, 10, api_sequence::<6, 2>());
+    harness!(api_n7_s2, 10, api_sequence::<7, 2>());
+    harness!(api_n8_s2, 10, api_sequence::<8, 2>());
 
     harness!(step_add_split_n1, 4, step_add_split::<1, 2>());
     harness!(step_add_split_n2, 6, step_add_split::<2, 4>());
